@@ -212,6 +212,12 @@ def _run(ck):
                         continue
                     n2 += 1
                     lc, rc = cxx_type(ln), cxx_type(rn)
+                    # the C++ types of the two arguments as they are printed: the builder may have given a literal a typed temporary
+                    ats = c05.dyn_builtin_arg_types(I4, (kind,), [lt, rt])
+                    if ats and len(ats) == 2 and all(a is not None for a in ats):
+                        rev = {repr(v): k_ for k_, v in TD.items()}
+                        lc = cxx_type(rev.get(repr(ats[0]), lc))
+                        rc = cxx_type(rev.get(repr(ats[1]), rc))
                     ok = lc == rc and lc in ORA['builtin']['Max']['valid'] and not isinstance(g, str)
                     ck.ob('R16.2', 'cxx-valid|%s|%s,%s' % (kind, lc if ln != 'int-literal' else 'int-literal', rc if rn != 'int-literal' else 'int-literal'), ok, '',
                           'std::%s(%s, %s) deduces one type' % (kind.lower(), lc, rc) if ok else
